@@ -98,6 +98,9 @@ class _Tr(ast.NodeTransformer):
         if node.attr == "state" and isinstance(node.ctx, ast.Load):
             # Individual.State is an Enum; the contracts use its integer values
             return ast.Call(func=ast.Name(id="_enumval", ctx=ast.Load()), args=[node], keywords=[])
+        if node.attr == "ghost_evals" and isinstance(node.ctx, ast.Load):
+            # ghost evaluation counter: an object the scenario did not instrument has not been evaluated through the log
+            return ast.Call(func=ast.Name(id="getattr", ctx=ast.Load()), args=[node.value, ast.Constant(node.attr), ast.Constant(0)], keywords=[])
         return node
 
     def visit_Compare(self, node):
